@@ -851,6 +851,20 @@ pub fn exec(s: &J) -> J {
             }
         }
         // ------------------------------------------------------------------ serde
+        "serde_raw" => {
+            ev.insert(
+                "res".into(),
+                guard(|| {
+                    let a1 = guard(|| match jsonb::to_serde_json(i0) { Ok(j) => json!({"t":"serde","v":serde_to_j(&j)}), Err(e) => r_err(&e) });
+                    let a2 = guard(|| match jsonb::to_serde_json_object(i0) {
+                        Ok(Some(m)) => json!({"t":"serde","v":serde_to_j(&J::Object(m))}),
+                        Ok(None) => r_none(),
+                        Err(e) => r_err(&e),
+                    });
+                    json!({"t":"serderaw","bytes":a1,"object":a2})
+                }),
+            );
+        }
         "serde" => {
             let v = vals.get(0).cloned();
             ev.insert(
